@@ -70,6 +70,14 @@ structure Config where
   bases : List String
   cloud : List PM
 
+/-- ghost record of a successful index claim: who claimed which name with which target -/
+structure Origin where
+  dom : String
+  client : Nat
+  thost : String
+  tport : Nat
+deriving DecidableEq, Repr
+
 structure Store where
   next : Nat
   index : String → Option Nat
@@ -78,8 +86,8 @@ structure Store where
   clientList : Nat → Option (List Nat)
   globalList : Option (List Nat)
   registry : String → Option PM
-  /-- ghost: `(full domain, client)` of mapping `n`, set by the successful index claim -/
-  born : Nat → Option (String × Nat)
+  /-- ghost: origin of mapping `n`, set by the successful index claim -/
+  born : Nat → Option Origin
   /-- ghost: every delete request invoked so far, `(id, client)` -/
   delReq : List (Nat × Nat)
 
@@ -179,7 +187,7 @@ def stepCreate (cf : Config) (s : Store) (client : Nat) (sub base thost : String
   | .cSetNX n =>
     match s.index (sub ++ "." ++ base) with
     | none => ({ s with index := upd s.index (sub ++ "." ++ base) (some n),
-                        born := upd s.born n (some (sub ++ "." ++ base, client)) }, .cSetData n, none)
+                        born := upd s.born n (some ⟨sub ++ "." ++ base, client, thost, tport⟩) }, .cSetData n, none)
     | some _ => (s, .idle, some (.err coreerrors.CodeAlreadyExists))
   | .cSetData n => ({ s with data := upd s.data n (some (mkRec n client sub base thost tport)) }, .cAppC n, none)
   | .cAppC n => ({ s with clientList := upd s.clientList client (appendId n (s.clientList client)) }, .cAppG n, none)
